@@ -443,7 +443,7 @@ func init() {
 			"pods: x, x re-created with a new IP (same chain name), y (two ports, one with hostIP), z (same port number, other protocol), v (host IP 0.0.0.0); prior NAT tables: empty, foreign chains/rules, stale galaxy chains",
 			"host ports are real sockets on this machine (port numbers offset per process)"},
 		Rule: "BFS over histories of {ensure-basic, setup(p), clean(p), fullsync(S)} for p in {x,x2,y,z}, 7 pod sets S, from each prior NAT table; state = iptables-save of the NAT table; every transition is checked against " +
-			"the differential reference (the same pods synced on an empty kernel) for the named pods, byte-for-byte equality for other pods' and foreign chains, and for kernel-rejected commands; plus exhaustive open/hold/close of host-port lists for two pods, and every schedule (preemption-bounded) of overlapping set-up / tear-down on one handler against the sequential orders of the same operations",
+			"the differential reference (the same pods synced on an empty kernel) for the named pods, byte-for-byte equality for other pods' and foreign chains, and for kernel-rejected commands; plus the daemon's start-up synchronisation (setupIPtables over the listed pods, every assignment of three port shapes to the pod names, with and without the port-mapping annotation, NAT table kept / emptied / holding a vanished pod's chains) against the table the set-ups had produced; plus exhaustive open/hold/close of host-port lists for two pods, and every schedule (preemption-bounded) of overlapping set-up / tear-down on one handler against the sequential orders of the same operations",
 		Jobs: func(tier string) []Job {
 			depth := 4
 			if tier == "thorough" {
@@ -458,6 +458,7 @@ func init() {
 				dj = append(dj, c14DaemonJob(s, 8, base, tier))
 			}
 			dj = append(dj, c14DaemonFaultJob(base))
+			dj = append(dj, c14DaemonRestartJob(base))
 			return append(dj, c14Job("empty", base, depth), c14Job("foreign", base, depth), c14Job("stale", base, depth), c14PortsJob(base), c14ConcurrentPortsJob(base, tier),
 				c14XCheckJob("empty", base, xd), c14XCheckJob("foreign", base, xd), c14XCheckJob("stale", base, xd))
 		}})
